@@ -53,6 +53,7 @@ def run(prop, tier, seed, t0):
     groups = {}
     for b in plan["bundles"]:
         groups.setdefault(b.get("_engine", "symx"), []).append(b)
+    results_by_engine = {}
     for eng, bundles in groups.items():
         last = [0]
 
@@ -63,6 +64,7 @@ def run(prop, tier, seed, t0):
 
         for (bundle, recs, err, secs) in runner.run_all(bins[eng], bundles, timeout, progress):
             agg.add(bundle, recs, err, secs, plan["nontrivial"][1])
+            results_by_engine.setdefault(eng, []).append((bundle, recs, err, secs))
 
     # ---- kani part (leaf kernels), if the property has one
     kani_res = None
@@ -114,8 +116,37 @@ def run(prop, tier, seed, t0):
             exit_code = 1
             reported += kani_res["violations"]
 
+    # ---- second solver: re-run a sample of bundles with cvc5; for sub-cases that are complete under both
+    # solvers the number of feasible paths and the violated labels must coincide
+    xcheck = dict(bundles=0, subcases_compared=0, disagreements=[])
+    sample = [b for b in plan["bundles"] if b.get("_engine", "symx") == "symx"]
+    sample = sample[:: max(1, len(sample) // (3 if tier == "quick" else 24))][: (3 if tier == "quick" else 24)]
+    if sample and binp:
+        key = lambda rec: json.dumps(rec["case"], sort_keys=True)
+        z3res = {}
+        for (bundle, recs, err, secs) in results_by_engine.get("symx", []):
+            for rec in recs:
+                z3res[key(rec)] = rec["report"]
+        for (bundle, recs, err, secs) in runner.run_all(binp, [dict(b, _solver="cvc5") for b in sample], timeout):
+            xcheck["bundles"] += 1
+            for rec in recs:
+                a, b2 = z3res.get(key(rec)), rec["report"]
+                if a and a["complete"] and b2["complete"]:
+                    xcheck["subcases_compared"] += 1
+                    la = sorted({v["label"] for v in a["violations"]})
+                    lb = sorted({v["label"] for v in b2["violations"]})
+                    if a["paths"] != b2["paths"] or la != lb:
+                        xcheck["disagreements"].append(dict(case=rec["case"], z3=dict(paths=a["paths"], viol=la), cvc5=dict(paths=b2["paths"], viol=lb)))
+    # ---- differential self-validation of the encoding (shadow concrete vs native, same inputs)
+    diff_ok, diff_bad = (0, [])
+    if binp:
+        diff_ok, diff_bad = runner.differential(binp, agg.diff_candidates, 16 if tier == "quick" else 64)
     # ---- machinery problems -> exit 2 (unless a real violation is already reported)
     problems = []
+    if xcheck["disagreements"]:
+        problems.append("z3 and cvc5 disagree on %d sub-cases" % len(xcheck["disagreements"]))
+    if diff_bad and exit_code == 0:
+        problems.append("%d differential runs disagree between the shadow build and the native build: the rewrite changed behaviour" % len(diff_bad))
     if agg.machinery:
         problems.append("%d sub-cases with refused paths / solver errors / divergences / harness errors" % len(agg.machinery))
     if nonrepro and exit_code == 0:
@@ -133,7 +164,10 @@ def run(prop, tier, seed, t0):
     cov = dict(
         states=max(1, agg.tot["paths"]),
         transitions=max(1, agg.tot["branches"]),
-        traces_validated_against_impl=replays_done,
+        traces_validated_against_impl=replays_done + diff_ok,
+        differential_runs_agreeing=diff_ok,
+        second_solver_crosscheck=dict(solver="cvc5 1.0", bundles=xcheck["bundles"], subcases_compared=xcheck["subcases_compared"], disagreements=xcheck["disagreements"][:3]),
+        differential_mismatches=diff_bad[:3],
         evaluations=max(1, agg.tot["paths"]),
         distinct_nontrivial=len(agg.nontrivial),
         rule="a case = (structure seed, family flags, diagram type, compilation type / solver configuration, width, root ...); each case is explored path-exhaustively by generational DFS with z3 deciding every branch alternative; non-trivial: " + plan["nontrivial"][0] + "; distinct = distinct case descriptors",
